@@ -191,6 +191,25 @@ func genOps(prop string, r *Rng, n int, tier string, emit func(string)) {
 		for i := 0; i < n/12; i++ {
 			emit(genReuseOp(r))
 		}
+		{ // many small frames that each announce much: any per-frame over-allocation adds up within one datagram
+			tw := []byte{0x8f, 205, 0, 8, 0, 0, 0, 1, 0, 0, 0, 2, 0, 1, 0xff, 0xf8, 0, 0, 1, 0}
+			for i := 0; i < 8; i++ {
+				tw = append(tw, 0x1f, 0xff) // run length 8191, not received: 65528 statuses, no deltas
+			}
+			for _, reps := range []int{50, 200} {
+				var d []byte
+				for j := 0; j < reps; j++ {
+					d = append(d, tw...)
+				}
+				emit("udec " + hx(d))
+			}
+			rb := rembWire(r, 3, 5, 0)
+			var d []byte
+			for j := 0; j < 300; j++ {
+				d = append(d, rb...)
+			}
+			emit("udec " + hx(d))
+		}
 		// every prefix of one valid frame per kind; (PT,count) rows behind tiny bodies
 		for _, k := range decKinds {
 			f := validFrame(r, k)
@@ -293,6 +312,16 @@ func genOps(prop string, r *Rng, n int, tier string, emit func(string)) {
 			rr := &rtcp.ReceiverReport{SSRC: uint32(r.U64()), Reports: []rtcp.ReceptionReport{genRRep(r, false)}, ProfileExtensions: r.Bytes(262144 - 32)}
 			emit("rt 1 " + packetTokens(rr))
 		}
+		if prop == "C09" { // a packet the decoder accepts and the encoder refuses, followed by one that marshals
+			nk := hdrBytes(false, 1, 205, 0)
+			nk = append(nk, 0, 0, 0, 1, 0, 0, 0, 2)
+			for j := 0; j < 254; j++ {
+				nk = append(nk, byte(j>>8), byte(j), 0, 0)
+			}
+			nk = finish(nk)
+			emit("reenc " + hx(append(nk, validFrame(r, "PLI")...)))
+			emit("reenc " + hx(append(append(validFrame(r, "BYE"), nk...), validFrame(r, "RRR")...)))
+		}
 		if prop == "C09" && !thorough {
 			pf := [][2]int{{206, 4}, {205, 1}}[r.Intn(2)]
 			b := behindHeader(r, pf[0], pf[1], 65540-4)
@@ -379,6 +408,9 @@ func genOps(prop string, r *Rng, n int, tier string, emit func(string)) {
 					emit("udec " + hx(append(b, validFrame(r, allKinds[r.Intn(len(allKinds))])...)))
 				}
 			}
+			for _, nss := range []int{58, 59, 64, 200, 255} {
+				emit("dec.REMB " + hx(rembWire(r, r.Intn(64), 1+r.Intn(0x3FFFF), nss)))
+			}
 			emit(genBigDecvOp(r, 1)) // FIR: the cheapest of the three in the model's list-indexing decoder
 		}
 		{ // an APP packet of 262144 octets: length field 0xFFFF
@@ -422,6 +454,13 @@ func genOps(prop string, r *Rng, n int, tier string, emit func(string)) {
 				putItem(w, genItem(r, r.Bool()))
 				emit("itemlen " + w.String())
 			}
+		}
+		for _, body := range []int{0, 0, 4, 8} { // RawPacket.Header(): the accessor decodes the packet's own first octets
+			b := hdrBytes(r.Bool(), int(r.Bits(5, 5)), r.Pick(192, 199, 208, 209), body/4)
+			b = append(b, r.Bytes(body)...)
+			raw := rtcp.RawPacket(b)
+			emit(opWith("hdr", &raw))
+			emit(opWith("framed", &raw))
 		}
 		reps := 1
 		if thorough {
